@@ -166,6 +166,10 @@ var reInj = regexp.MustCompile(`INJ-(\d+)-`)
 
 func runC13Recursive(env *sim.Env) {
 	t := env.Tape
+	if t.Choose(4) == 3 {
+		runC13Hook(env)
+		return
+	}
 	sh := recShape{
 		n:          t.Range(1, 3),
 		viaInclude: t.Bool(1, 2),
@@ -297,4 +301,110 @@ func sortedInts(m map[int]bool, upTo int) []int {
 		}
 	}
 	return out
+}
+
+// ---- the "layout protects its hook" idiom: a try statement whose body is text plus a block
+// definition; a template that extends the layout overrides the block, and the override fails. The
+// try statement belongs to the layout, the failure happens in code the layout has never seen.
+
+func runC13Hook(env *sim.Env) {
+	t := env.Tape
+	static := t.Bool(1, 2)  // the try body consists of text and the block only
+	params := t.Bool(1, 3)  // the block has a parameter (with default)
+	levels := t.Range(1, 2) // child extends base, or grandchild extends child extends base
+	override := t.Choose(4) > 0
+	catchVar := t.Bool(1, 2)
+	failAt := t.Choose(3) // 0: the override does not fail; 1: first fault point; 2: second
+	body := "[pre]"
+	if !static {
+		body += `{{ "act" }}`
+	}
+	hdr := "hook()"
+	if params {
+		hdr = `hook(p="dp")`
+	}
+	body += "{{block " + hdr + "}}[dflt]{{end}}[post]"
+	catch := "{{catch}}[c]"
+	if catchVar {
+		catch = "{{catch e}}[c:{{errid(e)}}]"
+	}
+	files := map[string]string{
+		"/base.jet": "<{{try}}" + body + catch + "{{end}}|{{if isset(e)}}leak{{else}}-{{end}}>",
+	}
+	over := "{{block " + hdr + "}}[o1]{{failif()}}[o2]{{failif()}}[o3]{{end}}"
+	top := "/base.jet"
+	if override {
+		files["/child.jet"] = `{{extends "/base.jet"}}` + over
+		top = "/child.jet"
+		if levels == 2 {
+			files["/grand.jet"] = `{{extends "/child.jet"}}`
+			top = "/grand.jet"
+		}
+	}
+	want := "<[pre]"
+	if !static {
+		want += "act"
+	}
+	failed := 0
+	switch {
+	case !override:
+		want += "[dflt][post]"
+	case failAt == 0:
+		want += "[o1][o2][o3][post]"
+	default:
+		failed = failAt
+		want = "<[c]"
+		if catchVar {
+			want = fmt.Sprintf("<[c:E%d]", failAt)
+		}
+	}
+	want += "|->"
+	pools, un := installPools(env, simrt.PoolAdversarial)
+	defer un()
+	set, _ := NewSet(files)
+	tm, err := set.GetTemplate(top)
+	if err != nil {
+		env.Res.Invalid = "hook program does not parse: " + err.Error()
+		return
+	}
+	desc := fmt.Sprintf("program: static-body=%v params=%v extends-levels=%d override=%v catch-variable=%v failing fault point=%d\n%s", static, params, levels, override, catchVar, failAt, describeFiles(files))
+	for round := 0; round < 2; round++ {
+		calls := 0
+		vm := jet.VarMap{}
+		vm.SetFunc("failif", func(a jet.Arguments) reflect.Value {
+			calls++
+			if calls == failAt {
+				panic(fmt.Errorf("INJ-%d-", calls))
+			}
+			return reflect.ValueOf("")
+		})
+		vm.SetFunc("errid", func(a jet.Arguments) reflect.Value {
+			if mm := reInj.FindStringSubmatch(fmt.Sprint(a.Get(0).Interface())); mm != nil {
+				return reflect.ValueOf("E" + mm[1])
+			}
+			return reflect.ValueOf("E?")
+		})
+		var b strings.Builder
+		var xerr error
+		pc := sim.Guard(func() { xerr = tm.Execute(&b, vm, nil) })
+		pools.AbandonOutstanding()
+		got := b.String()
+		env.Event("hook round %d -> %q err=%v", round, got, xerr)
+		switch {
+		case pc != nil:
+			env.Violate("re-entrant-try", "hook:panic", "Execute panicked: %s\n%s", sim.Clip(pc.String(), 600), desc)
+		case xerr != nil:
+			env.Violate("error-contained", "hook:escaped", "round %d: the error raised in the overriding block escaped the layout's try statement: %v (rendered %s)\n%s", round, xerr, sim.Q(got), desc)
+		case got != want:
+			env.Violate("spliced-output", "hook:body-leaked", "round %d rendered %s; expected %s\n%s", round, sim.Q(got), sim.Q(want), desc)
+		}
+	}
+	poolStats(env, pools)
+	env.Stat("probe:try_around_a_block_overridden_by_an_extending_template", 1)
+	if failed > 0 {
+		env.Stat("fault:function_panics_with_error", 2)
+	}
+	env.Res.Nontrivial = true
+	env.Res.Sig = fmt.Sprintf("hook:%016x", sim.HashString(desc))
+	env.Res.Sample = "layout-protects-its-hook " + desc + "-> " + want
 }
